@@ -1,5 +1,7 @@
 open Datatypes
 
+val nth_error : 'a1 list -> nat -> 'a1 option
+
 val removelast : 'a1 list -> 'a1 list
 
 val rev : 'a1 list -> 'a1 list
@@ -10,8 +12,14 @@ val map : ('a1 -> 'a2) -> 'a1 list -> 'a2 list
 
 val flat_map : ('a1 -> 'a2 list) -> 'a1 list -> 'a2 list
 
+val fold_left : ('a1 -> 'a2 -> 'a1) -> 'a2 list -> 'a1 -> 'a1
+
 val existsb : ('a1 -> bool) -> 'a1 list -> bool
 
 val filter : ('a1 -> bool) -> 'a1 list -> 'a1 list
 
 val find : ('a1 -> bool) -> 'a1 list -> 'a1 option
+
+val combine : 'a1 list -> 'a2 list -> ('a1 * 'a2) list
+
+val repeat : 'a1 -> nat -> 'a1 list
